@@ -115,14 +115,14 @@ def run(prog, rep):
         fw = field_writers(u)
         fixers = set(f for f, w in fw.items() if fld in w and {"left", "right"} <= w and f.startswith("pp_"))
         for mode in ("insert", "remove"):
-            top = u.fn("p_tree_%s_%s" % (tag, mode))
+            top = u.fn("p_tree_%s_%s" % (tag, mode), raw=True)
             called = sorted(set(c.get("callee") for (b, i, c) in top.calls() if c.get("callee") in fixers))
             if not called:
                 rep.ob(rule, top, "%s-fixup" % mode, False, "p_tree_%s_%s calls no helper that rewrites %s and rotates: nothing restores the balance invariant" % (tag, mode, fld), top.loc[0])
                 continue
             if len(called) != 1:
                 raise AnalysisBroken("%s: p_tree_%s_%s calls %d fix-up helpers (%s)" % (un, tag, mode, len(called), called))
-            fx = u.fn(called[0])
+            fx = u.fn(called[0], raw=True)
             if len(fx.params) != 2:
                 raise AnalysisBroken("%s: %s does not take (node, root)" % (un, fx.name))
             if tag == "rb":
@@ -216,7 +216,21 @@ def run(prog, rep):
             ok = ok and nchild > 0
         rep.ob("C13.4", fn, "remove-entry", ok, ("the retrace starts at the leaf before the unlink or at the relinked child" if tag == "avl" else
                "%d one-child removal state(s): the child that replaces a black node is painted black" % nchild) if ok else (msg or "no one-child removal path found"), where)
-    rep.floor("C13.4", 4)
+    # the balance attribute must hold the values the fix-up compares against on every platform
+    au = prog.unit("ptree-avl.c")
+    for rec in au.records.values():
+        f_ = rec.field("balance_factor") if hasattr(rec, "field") else None
+        if f_ is None:
+            continue
+        t_ = au.types[f_["t"]]
+        plain_char = t_.get("s") == "char"
+        ok_t = t_.get("k") == "int" and t_.get("sg") is True and not plain_char
+        rep.ob("C13.4", au.fn("p_tree_avl_insert", raw=True), "factor-type", ok_t,
+               "balance_factor is stored in %s: -1, 0 and 1 read back unchanged on every platform" % t_.get("s") if ok_t else
+               "balance_factor is declared %s (%s): %s, so a stored -1 reads back as a positive value, every `== -1` test of the retracing code fails and right-heavy nodes are never rotated" % (
+                   f_.get("ts"), t_.get("s"), "plain char is unsigned on ARM, PowerPC and s390 (and with -funsigned-char)" if plain_char else "the type is not a signed integer"),
+               au.fn("p_tree_avl_insert", raw=True).loc[0])
+    rep.floor("C13.4", 5)
 
 
 def leaf_path(st):
@@ -250,6 +264,12 @@ SELFTEST = [
     dict(id="avl-replace-runs-retrace", file="src/ptree-avl.c", expect="C13.4",
          old="\t\t(*cur_node)->key   = key;\n\t\t(*cur_node)->value = value;\n\n\t\treturn FALSE;",
          new="\t\t(*cur_node)->key   = key;\n\t\t(*cur_node)->value = value;\n\n\t\tpp_tree_avl_balance_insert (((PTreeAVLNode *) *cur_node), root_node);\n\n\t\treturn FALSE;"),
+    dict(id="avl-factor-plain-char", file="src/ptree-avl.c", expect="C13.4",
+         old="\tpint\t\t\tbalance_factor;", new="\tpchar\t\t\tbalance_factor;"),
+    dict(id="avl-factor-unsigned", file="src/ptree-avl.c", expect="C13.4",
+         old="\tpint\t\t\tbalance_factor;", new="\tpuint\t\t\tbalance_factor;"),
+    dict(id="avl-factor-int8-neutral", file="src/ptree-avl.c", expect=None,
+         old="\tpint\t\t\tbalance_factor;", new="\tpint8\t\t\tbalance_factor;"),
     # ---- C13.2 red-black fix-ups ----
     dict(id="rb-remove-fixup-stops-below-root", file="src/ptree-rb.c", expect="C13.2",
          old="\t\tif (P_UNLIKELY (node->parent == NULL))\n\t\t\tbreak;\n\n\t\tsibling = pp_tree_rb_get_sibling (node);",
